@@ -615,7 +615,6 @@ func vc07Limits(thorough bool) []vc07Limit {
 	return out
 }
 
-
 // ---------------------------------------------------------------------------------------------------------
 // message-size boundary scenarios
 
@@ -745,12 +744,11 @@ func TestVerifC07Limits(t *testing.T) {
 	defer os.RemoveAll(dir)
 	const rmax = 12
 	limits := vc07Limits(r.Thorough())
-	// execution order: cheapest families first (as in part small), so that a wall-budget cut on an overloaded machine takes the
-	// long position sweeps and the 500-1500-transaction scenarios last: 0 = a handful of transactions, fair run only (size sweep,
-	// creation faults); 1 = other fair-run-only scenarios; 2 = deviation sweeps over every position and page-sized DAGs
+	// execution order: cheapest families first (as in part small): 0 = a handful of transactions, fair run only (size sweep,
+	// creation faults); 1 = the other scenarios; 2 = page-sized DAGs (500-1800 transactions); see also the two passes below
 	costClass := func(l vc07Limit) int {
 		switch {
-		case len(l.Kinds) > 0 || strings.HasPrefix(l.Name, "lower-height") || strings.HasPrefix(l.Name, "behind-by"):
+		case strings.HasPrefix(l.Name, "lower-height") || strings.HasPrefix(l.Name, "behind-by"):
 			return 2
 		case l.MaxMsg > 0 || l.KVStep:
 			return 0
@@ -836,95 +834,103 @@ func TestVerifC07Limits(t *testing.T) {
 	var states, trans int64
 	maxR, unit := 0, 0
 	largest := map[string]int{} // largest serialized envelope seen per message kind (every one is checked against the message size)
-	for _, l := range limits {
-		kinds := append([]string{""}, l.Kinds...)
-		if r.Thorough() {
-			for _, k := range l.Kinds2 {
-				dupl := false
-				for _, x := range kinds {
-					dupl = dupl || x == k
-				}
-				if !dupl {
-					kinds = append(kinds, k)
+	// two passes with identical unit numbering: first the fair run of EVERY scenario (breadth), then the deviation sweeps over
+	// every position (depth) — a wall-budget cut on an overloaded machine then costs sweeps, not whole scenario families
+	for pass := 0; pass < 2; pass++ {
+		unit = 0
+		for _, l := range limits {
+			kinds := append([]string{""}, l.Kinds...)
+			if r.Thorough() {
+				for _, k := range l.Kinds2 {
+					dupl := false
+					for _, x := range kinds {
+						dupl = dupl || x == k
+					}
+					if !dupl {
+						kinds = append(kinds, k)
+					}
 				}
 			}
+			var u *vc07Universe
+			var tpl *vc07Template
+			var script []vc07Phase
+			var opts vc07BuildOpts
+			restore := func() {}
+			positions := -1
+			for _, kind := range kinds {
+				// one unit of work = (scenario, deviation kind); units are dealt round-robin
+				unit++
+				if ((unit-1)/2)%nsh != shard || r.Expired() || r.Violations() > 0 { // consecutive units (e.g. the two sides swapped) stay together
+					continue
+				}
+				if (kind == "") != (pass == 0) {
+					continue
+				}
+				if u == nil {
+					var skip string
+					u, tpl, script, opts, skip, restore = prepare(l)
+					if skip != "" {
+						// outside the property's premise (e.g. a transaction that no single message can carry): counted, not judged
+						r.Eval("")
+						r.AddExtra("limit_scenarios_skipped_input_outside_premise", 1)
+						r.Outcome("skipped:" + skip)
+						u = nil
+						break
+					}
+				}
+				run := func(devs []vc07Dev) vc07LargeResult {
+					res := vc07RunScriptOpt(t, dir, u, tpl, script, devs, rmax, outcome, opts)
+					states += res.checked
+					trans += res.steps
+					if l.KVStep && !res.fired {
+						r.Eval("") // the planned KV step does not exist in this creation: a run without fault
+					} else {
+						r.Eval(fmt.Sprintf("%s %v", l.Name, devs))
+					}
+					for k, v := range res.maxEnvelope {
+						if v > largest[k] {
+							largest[k] = v
+						}
+					}
+					if l.MaxMsg > 0 {
+						r.Outcome(fmt.Sprintf("size-sweep-messages:%d", res.kinds["TransactionList"]))
+					}
+					if res.clause != "" {
+						what := fmt.Sprintf("%s: %s", l.Name, res.detail)
+						if res.oversize > 0 {
+							what += fmt.Sprintf(" (the stream refused %d message(s) of kind %s whose serialized size exceeds the message size %d)", res.oversize, res.oversizeKind, grpc.MaxMessageSizeInBytes)
+						}
+						if res.fired {
+							what += " (storage fault at step " + res.firedLabel + ")"
+						}
+						sg := "C07|limits:" + sig(l, res.clause, devs)
+						if res.fired && len(devs) == 0 {
+							sg = fmt.Sprintf("C07|limits:%s|%s|cfail(%s)", l.Class, res.clause, res.firedLabel)
+						}
+						r.Violation(sg, what, vc07LimitReplay{Limit: l.Name, Devs: devs})
+					} else {
+						r.Outcome(fmt.Sprintf("limits-rounds:%d", res.rounds))
+						r.AddExtra(fmt.Sprintf("limit_runs_converging_in_%d_rounds", res.rounds), 1)
+						if res.rounds > maxR {
+							maxR = res.rounds
+						}
+					}
+					return res
+				}
+				if kind == "" {
+					res := run(nil)
+					r.Sample(map[string]any{"scenario": l.Name, "transactions": len(u.Txs), "fair_rounds_after_script": res.rounds, "deliveries": res.deliveries, "messages": res.kinds})
+					continue
+				}
+				if positions < 0 {
+					positions = vc07RunScriptOpt(t, dir, u, tpl, script, nil, rmax, nil, opts).deliveries
+				}
+				for pos := 0; pos < positions && !r.Expired() && r.Violations() == 0; pos++ {
+					run([]vc07Dev{{Pos: pos, Kind: kind}})
+				}
+			}
+			restore()
 		}
-		var u *vc07Universe
-		var tpl *vc07Template
-		var script []vc07Phase
-		var opts vc07BuildOpts
-		restore := func() {}
-		positions := -1
-		for _, kind := range kinds {
-			// one unit of work = (scenario, deviation kind); units are dealt round-robin
-			unit++
-			if ((unit-1)/2)%nsh != shard || r.Expired() || r.Violations() > 0 { // consecutive units (e.g. the two sides swapped) stay together
-				continue
-			}
-			if u == nil {
-				var skip string
-				u, tpl, script, opts, skip, restore = prepare(l)
-				if skip != "" {
-					// outside the property's premise (e.g. a transaction that no single message can carry): counted, not judged
-					r.Eval("")
-					r.AddExtra("limit_scenarios_skipped_input_outside_premise", 1)
-					r.Outcome("skipped:" + skip)
-					u = nil
-					break
-				}
-			}
-			run := func(devs []vc07Dev) vc07LargeResult {
-				res := vc07RunScriptOpt(t, dir, u, tpl, script, devs, rmax, outcome, opts)
-				states += res.checked
-				trans += res.steps
-				if l.KVStep && !res.fired {
-					r.Eval("") // the planned KV step does not exist in this creation: a run without fault
-				} else {
-					r.Eval(fmt.Sprintf("%s %v", l.Name, devs))
-				}
-				for k, v := range res.maxEnvelope {
-					if v > largest[k] {
-						largest[k] = v
-					}
-				}
-				if l.MaxMsg > 0 {
-					r.Outcome(fmt.Sprintf("size-sweep-messages:%d", res.kinds["TransactionList"]))
-				}
-				if res.clause != "" {
-					what := fmt.Sprintf("%s: %s", l.Name, res.detail)
-					if res.oversize > 0 {
-						what += fmt.Sprintf(" (the stream refused %d message(s) of kind %s whose serialized size exceeds the message size %d)", res.oversize, res.oversizeKind, grpc.MaxMessageSizeInBytes)
-					}
-					if res.fired {
-						what += " (storage fault at step " + res.firedLabel + ")"
-					}
-					sg := "C07|limits:" + sig(l, res.clause, devs)
-					if res.fired && len(devs) == 0 {
-						sg = fmt.Sprintf("C07|limits:%s|%s|cfail(%s)", l.Class, res.clause, res.firedLabel)
-					}
-					r.Violation(sg, what, vc07LimitReplay{Limit: l.Name, Devs: devs})
-				} else {
-					r.Outcome(fmt.Sprintf("limits-rounds:%d", res.rounds))
-					r.AddExtra(fmt.Sprintf("limit_runs_converging_in_%d_rounds", res.rounds), 1)
-					if res.rounds > maxR {
-						maxR = res.rounds
-					}
-				}
-				return res
-			}
-			if kind == "" {
-				res := run(nil)
-				r.Sample(map[string]any{"scenario": l.Name, "transactions": len(u.Txs), "fair_rounds_after_script": res.rounds, "deliveries": res.deliveries, "messages": res.kinds})
-				continue
-			}
-			if positions < 0 {
-				positions = vc07RunScriptOpt(t, dir, u, tpl, script, nil, rmax, nil, opts).deliveries
-			}
-			for pos := 0; pos < positions && !r.Expired() && r.Violations() == 0; pos++ {
-				run([]vc07Dev{{Pos: pos, Kind: kind}})
-			}
-		}
-		restore()
 	}
 	// the three-node line (one unit of work per scenario)
 	lineNames := []string{"line-public", "line-private-payload-at-owner", "line-private-relay-already-synced"}
